@@ -218,18 +218,25 @@ class HttpWebServerPlugin(HttpProtocolHandlerPlugin):
         if self.request.is_complete and \
                 self.request.is_http_1_1_keep_alive and \
                 self.route is not None:
-            if self.pipeline_request is None:
-                self.pipeline_request = HttpParser(
-                    httpParserTypes.REQUEST_PARSER,
-                )
-            self.pipeline_request.parse(raw)
-            if self.pipeline_request.is_complete:
-                self.route.handle_request(self.pipeline_request)
-                if not self.pipeline_request.is_http_1_1_keep_alive:
-                    raise HttpProtocolException(
-                        'Pipelined request is not keep-alive, will tear down request...',
+            # A single read may carry more than one pipelined request;
+            # whatever follows a complete request starts the next one.
+            remainder: Optional[memoryview] = raw
+            while remainder is not None:
+                if self.pipeline_request is None:
+                    self.pipeline_request = HttpParser(
+                        httpParserTypes.REQUEST_PARSER,
                     )
-                self.pipeline_request = None
+                self.pipeline_request.parse(remainder)
+                remainder = None
+                if self.pipeline_request.is_complete:
+                    remainder = self.pipeline_request.buffer
+                    self.pipeline_request.buffer = None
+                    self.route.handle_request(self.pipeline_request)
+                    if not self.pipeline_request.is_http_1_1_keep_alive:
+                        raise HttpProtocolException(
+                            'Pipelined request is not keep-alive, will tear down request...',
+                        )
+                    self.pipeline_request = None
 
     def on_response_chunk(self, chunk: List[memoryview]) -> List[memoryview]:
         self._response_size += sum(len(c) for c in chunk)
